@@ -1,7 +1,13 @@
 """C10 — PDR verdicts are sound and definite, with genuine counterexamples."""
 HANDLER = "C10"
-RULE = ("generated bit-vector transition systems with at most 2^10 state valuations and at most 3 input bits, fourteen families "
+RULE = ("generated bit-vector transition systems with at most 2^10 state valuations and at most 3 input bits, sixteen families "
         "(counters with enable/wrap/saturation/flags, shift registers with an input constraint, lock-step register pairs, one-hot rings, "
+        "arithmetic progressions x' = x + c on 3..5 bits (c constant or chosen among 2/4 constants by an input; arbitrary reset and bad values: "
+        "the family that drives fix_gen_cube's restore loop with several literals, histograms `trace_restore_loop`, `restore_core_2+_by_family`; "
+        "it also has a stream of its own, `restore`, with generalisation on only), "
+        "systems of the encoding properties' generator crate::c04::mcgen::gen_mc_sys (about a tenth: shared init/next/bad signals, init-dependency "
+        "chains, delay registers, NAMED signals - the names travel with the case, field `named` -, constant states, bare inputs/literals as bad "
+        "states; <= 6+3 state bits, <= 3 input bits, no arrays; histograms `mcgen_features`, `mcgen_named_signals`), "
         "explicit FSM tables, random next-state logic, states without init / without next / constant, init reading an earlier state, "
         "init reading an input (unsafe ones and SAFE ones whose state projection is spuriously unsafe), bad states that are dead ends under a "
         "state constraint, relational init (a state whose init reads a state without init), bad-state expressions reading an input that the "
@@ -14,13 +20,26 @@ RULE = ("generated bit-vector transition systems with at most 2^10 state valuati
         "patches/0002-hook-pdr-trace.diff; harness/build.rs detects it): the hook records every solver query of pdr.rs with its answer "
         "(model / unsat core), every blocked cube and every new frame; the driver runs the extracted CONCRETE model Model/PdrImpl.v with the "
         "recorded answers as its oracle and compares query sequence (kind, frame, negated cube, TO_STEP literals), blocked cubes, frames, "
-        "activation-literal ids and the verdict event by event (counters runs_with_trace, trace_*). distinct = distinct (system, solver, mode, seed)")
+        "activation-literal ids and the verdict event by event (counters runs_with_trace, trace_*). ORACLE HYPOTHESIS TESTED: for systems with "
+        "2*(state bits + input bits) <= 16 every recorded solver answer is checked with the extracted answer_ok (theorem "
+        "C10_pdr_answer_check_exact: it decides `truthful`) over the explicit state-level semantics of Model/PdrSys.v for the query the MODEL "
+        "asks at that point: a sat answer's cube must be a model of it, an unsat answer must be unsat for it restricted to its core "
+        "(`answers_checked=` in the details; a violation is the diff key pdr-model:untruthful-answer) - this is what exposes defects in "
+        "calls that are not trace events (permanent assertions, activation literals, frame encodings). FAULT runs (C15 on the real pdr): "
+        "`faults` extra runs per system in which a wrapper around the solver context turns the n-th response-bearing call (check-sat, "
+        "check-sat-assuming, get-value, get-unsat-assumptions; n random) into Err or into an `unknown` answer; the result must be that error / "
+        "an error or Unknown, never a verdict computed after an error, and the recorded trace must be the model's run with AErr / AUnknown at "
+        "that query (keys fault:*; histogram fault_runs). distinct = distinct (system, solver, mode, seed, fault)")
 ASSUMPTIONS = [
     "three layers: Spec/ReachFix.v specifies the verdict, Model/Ic3.v the abstract logic, Model/PdrImpl.v is a concrete executable model of "
     "pdr.rs (frames with bookkeeping lists and asserted clauses, get_bad_cube, rel_ind + fix_gen_cube, block_cube, propagate, main loop, BMC "
     "fallback) over a solver oracle; the model is hand-written and tied to the code by event-by-event replay of the real solver's answers, "
     "not by a proof about the Rust source; the SMT encoding and the solver are abstracted into the oracle hypothesis (truthful answers)",
     "termination of block_cube's loop and of the main loop is not proved (fuel-conditional); the BMC fallback is an oracle (C02/C03)",
+    "solver faults: the model's oracle may answer AErr / AUnknown at any query, any declare/assert/define command may fail (cmd_fail), "
+    "the BMC oracle may fail (C15_pdr_model_propagates / _unknown in Props/C15.v); the harness injects faults only at response-bearing "
+    "calls of the SolverContext, failures of assert/declare commands are covered by the proof about the model only",
+    "the test of the oracle hypothesis covers systems with 2*(state bits + input bits) <= 16; for larger systems the recorded answers are taken on trust",
     "the solvers (z3 4.8.12, cvc5 1.0.3) answer sat/unsat correctly; 'whichever models and cores the solver returns' is sampled, not enumerated",
     "the execution semantics is Spec/System.v (init equations over the valuation itself, simultaneous next-state update, constraints at every step)",
     "a witness cannot carry the later values of a state without next function: for such systems only the verdict is compared",
@@ -37,11 +56,15 @@ PROFILES = ["debug"]
 def streams(tier, seed):
     if tier == "quick":
         # z3 seed 4 = smt.core.minimize, cvc5 seed 2 = --minimal-unsat-cores: small cores make the init re-fixing matter
-        return [dict(tag="main", count=40, seed=seed, extra={"runs": "z3:0,4;cvc5:0,2;pushpop:0", "jobs": 8, "full-bits": 4, "cvc5-bits": 4, "small-share": 75})]
+        return [dict(tag="main", count=40, seed=seed, extra={"runs": "z3:0,4;cvc5:0,2;pushpop:0", "jobs": 8, "full-bits": 4, "cvc5-bits": 4, "small-share": 75, "faults": 1}),
+                # the restore loop of fix_gen_cube with cores of several literals (seeded change C10-m4): generalisation on only
+                dict(tag="restore", count=60, seed=seed, extra={"family": "arith", "runs": "z3+:0,1,4", "jobs": 8, "full-bits": 5})]
     out = []
     for k in range(3):
         out.append(dict(tag="main%d" % k, count=50, seed=seed * 1000 + k,
-                        extra={"runs": "z3:0,1,2,3,4;cvc5:0,1,2;pushpop:0,1", "jobs": 10, "full-bits": 4, "cvc5-bits": 4, "small-share": 70}))
+                        extra={"runs": "z3:0,1,2,3,4;cvc5:0,1,2;pushpop:0,1", "jobs": 10, "full-bits": 4, "cvc5-bits": 4, "small-share": 70, "faults": 3}))
+        out.append(dict(tag="restore%d" % k, count=100, seed=seed * 1000 + 500 + k,
+                        extra={"family": "arith", "runs": "z3+:0,1,2,3,4;cvc5+:0,1", "jobs": 10, "full-bits": 5, "cvc5-bits": 5}))
     return out
 
 
@@ -54,7 +77,10 @@ MANIFEST = dict(
     level_text=("Theorems (Coq): C10_pdr_model_success_sound_sys - for every system of the class fin_class and every truthful solver oracle, "
                 "Success of the concrete model of pdr.rs (Model/PdrImpl.v) implies that no bad state is reachable at any depth "
                 "(bad_reachable of Spec/System.v); C10_pdr_model_fail_real / _definite / _unknown_only - Fail only with a real counterexample "
-                "within the frame bound, never Err/panic under a truthful total solver (termination fuel-conditional). "
+                "within the frame bound, never Err/panic under a truthful total solver (termination fuel-conditional); "
+                "C10_pdr_answer_check_exact - the executable test answer_ok decides the oracle hypothesis for one answer (the driver applies "
+                "it to every recorded answer of the real solver on small systems); Props/C15.v: C15_pdr_model_propagates / _unknown - a failing "
+                "solver call ends the model's run with that error, an unknown answer is never the basis of a verdict. "
                 "C10_reach_spec_total/_safe/_unsafe - the executable "
                 "explicit-state fixpoint reach_spec returns Safe iff no bad state is reachable at any depth by a constrained execution of "
                 "Spec/System.v, Unsafe d iff d is the least such depth, and never runs out of fuel; C10_ic3_* - soundness of the abstract "
